@@ -851,6 +851,8 @@ func runOnce(ln *Line, raw []byte, soft time.Duration) *Result {
 
 // ------------------------------------------------------------------ main
 
+var nDivergent, skippedAfterDivs int64
+
 func main() {
 	profPath := flag.String("profiles", "", "JSON file with the stream profiles")
 	describe := flag.Bool("describe", false, "print the packets of every profile and exit")
@@ -912,7 +914,16 @@ func main() {
 		if err := json.Unmarshal(js, ln); err != nil {
 			machinery("bad line: " + err.Error())
 		}
+		if atomic.LoadInt64(&nDivergent) >= 120 {
+			// enough evidence: every further divergent segmentation costs its full patience; the rest is not executed
+			atomic.AddInt64(&rep.N, 1)
+			atomic.AddInt64(&skippedAfterDivs, 1)
+			return
+		}
 		res := runScenario(ln, js, time.Duration(*softMs)*time.Millisecond)
+		if !res.OK {
+			atomic.AddInt64(&nDivergent, 1)
+		}
 		atomic.AddInt64(&rep.N, 1)
 		atomic.AddInt64(&bytesSent, int64(res.N))
 		atomic.AddInt64(&msgsSent, int64(res.Chunks))
@@ -1006,7 +1017,7 @@ func main() {
 		rep.Div(d.Sig, what, d.line, again)
 	}
 	stop()
-	rep.Summary(map[string]interface{}{"by_signature": bySig, "per_family": perFam, "predicted_drop": predicted,
+	rep.Summary(map[string]interface{}{"skipped_after_divergences": atomic.LoadInt64(&skippedAfterDivs), "by_signature": bySig, "per_family": perFam, "predicted_drop": predicted,
 		"predicted_drop_but_conformant_strict": predictedOKStrict, "predicted_drop_but_conformant_strict_binary_only": predictedOKStrictBin, "predicted_drop_but_conformant_tolerant": predictedOKTolerant,
 		"strict": strictN, "text": textN, "bytes": bytesSent, "messages": msgsSent, "unconfirmed": unconfirmed,
 		"diverging_scenarios": len(divs), "twin_anomalies": anomalies, "predicted_drop_but_conformant_samples": mispred})
